@@ -198,6 +198,7 @@ def apply(ctx, W):
     if len(mac) != 1:
         raise rules.WeaveError("build: closure add_functions has no single format!")
     rules.fmt_value(fw, mac[0], "v_format2_str", str_args=True)
+    rules.strip_prefix_or_self(fw, fw.let(b, "unprefixed_name"))
     fb = [c for c in fw.calls(b, "FunctionBody::field") if cl["body_span"][0] <= c["span"][0] < cl["body_span"][1]]
     if len(fb) != 1:
         raise rules.WeaveError("build: closure add_functions has no single FunctionBody::field call")
